@@ -420,6 +420,74 @@ EDGES = [
 ]
 
 
+# ----------------------------------------------------------------------------- placement (context x fragment cross product)
+# Every fragment that needs something from its surroundings to be translated (a function to emit code into, a
+# constant value, a complete type, a va_list) is placed into every context that evaluates, sizes, types or merely
+# parses an operand, at file scope and at block scope.  Most combinations are constraint violations: the compiler must
+# say so (status 1) or accept, never crash.
+PLACE_PRELUDE = ("int n = 3; int g(); struct S { int a; int bf : 3; int arr[2]; } gs, *gsp; int garr[4]; void *vp; struct I; extern struct I *ip; "
+                 "typedef int VT[]; enum E { E0, E1 } ge; _Thread_local int tl; float fl; void vf(void);\n")
+PLACE_FRAGS = [
+    "(int (*)[n])0", "*(int (*)[n])0", "(int (*)[n++])vp", "(int[n]){0}"[:0] or "sizeof(int[n])", "_Alignof(int[n])", "*(int (*)[g()])vp", "(int (*)[n][n])vp", "(char (*)[sizeof(int[n])])0",
+    "n", "n++", "n = 2", "g()", "g(n, n)", "({ n; })", "\"str\"", "L\"w\"", "__func__", "(struct T { int a; }){ 1 }", "(int){ n }", "&(int){ 1 }", "(int[]){ 1, 2 }", "(VT){ 1, 2, 3 }",
+    "__builtin_alloca(n)", "__builtin_alloca(8ul)", "*(void *)0", "(void)0", "*vp", "vf()", "vf", "&vf", "gs", "gs.bf", "gs.arr", "gsp->arr", "garr", "&garr", "*ip", "ip", "ip + 1", "1/0", "1%0", "nullptr", "(char)1",
+    "1 ? n : 2", "n && g()", "0 && g()", "1 || g()", "n ? gs : gs", "(n, gs)", "ge", "E1", "tl", "&tl", "fl", "1.5", "(long double)1", "&gs.a", "&garr[1]", "&garr[n]", "garr[n]", "gsp->bf", "(struct S){ 0 }.arr",
+    "__builtin_va_arg(*(__builtin_va_list *)vp, int)", "__builtin_expect(n, 1)", "__builtin_constant_p(n)", "__builtin_unreachable()", "__builtin_offsetof(struct S, arr[n])", "_Generic(n, int: g(), default: 0)",
+    "sizeof(struct { int a[n]; })", "(struct { int a; int f[]; } *)vp", "*(struct { int a; int f[]; } *)vp", "(int (*)(int (*)[n]))vp", "\"a\"[0]", "*\"a\"", "&*\"a\"", "-n", "!gs.bf", "~ge", "+fl",
+]
+PLACE_CTX = [
+    "typeof(%s) p%d;", "typedef typeof(%s) T%d;", "typeof_unqual(%s) q%d;", "extern typeof(%s) e%d;", "static typeof(%s) s%d;", "typeof(%s) *pp%d;", "typeof(typeof(%s)) tt%d;", "typeof(%s) a%d[2];",
+    "int a%d[sizeof(%s)];"[:0] or "int x%d = sizeof(%s);", "int y%d = sizeof(typeof(%s));", "int z%d = _Alignof(typeof(%s));", "enum { A%d = sizeof(%s) };", "enum { B%d = (%s) };", "struct s%d { int b : sizeof(%s); };",
+    "struct m%d { typeof(%s) m; };", "union u%d { typeof(%s) m; int k; };", "_Static_assert(sizeof(%s) || 1, \"\");", "_Static_assert((%s) || 1, \"\");", "_Alignas(sizeof(%s)) int al%d;", "_Alignas(typeof(%s)) int am%d;",
+    "int ge%d = _Generic(%s, default: 1);", "int gf%d = _Generic(1, typeof(%s): 1, default: 2);", "int in%d = (%s);", "static int si%d = (%s);", "int ar%d[] = { 1, (%s) };", "int *ad%d = &(%s);", "int ay%d[(%s)];",
+    "int fp%d(int a[sizeof(%s)]);", "int fq%d(typeof(%s) a);", "int fr%d(int a[(%s)]);", "typeof(%s) fs%d(void);", "int cp%d = __builtin_constant_p(%s);", "int tc%d = __builtin_types_compatible_p(typeof(%s), int);",
+    "long of%d = __builtin_offsetof(struct { int a; typeof(%s) b; }, b);", "long og%d = __builtin_offsetof(struct S, arr[sizeof(%s)]);", "int cl%d = sizeof((typeof(%s)[2]){ 0 });", "void *ca%d = (typeof(%s) *)0;",
+    "int sw%d(int a) { switch (a) { case sizeof(%s): return 1; } return 0; }", "int sx%d(int a) { switch (a) { case (%s): return 1; } return 0; }",
+]
+PLACE_BLOCK_ONLY = ["(void)(%s);", "(void)sizeof(%s);", "return (void)(%s);", "if (sizeof(%s)) ;", "goto l%d; { typeof(%s) v; l%d: ; }"[:0] or "for (typeof(%s) i;;) break;", "while (0) (void)sizeof(typeof(%s));",
+                    "{ typeof(%s) v, w; }", "{ typedef typeof(%s) L; L l1; { L l2; } }", "{ static int st = sizeof(%s); }", "(void)(typeof(%s) *)vp;", "(void)_Generic(%s, default: 0);"]
+
+
+def _place(ctxt, frag, k):
+    n = ctxt.count("%d")
+    out = ctxt.replace("%s", frag)
+    return out.replace("%d", str(k)) if n else out
+
+
+def place_enum(ctx):
+    k = 0
+    for ci, c in enumerate(PLACE_CTX + PLACE_BLOCK_ONLY):
+        for fi in range(len(PLACE_FRAGS)):
+            k += 1
+            if ci < len(PLACE_CTX) and not c.startswith(("int sw", "int sx")):
+                yield {"ctx": ci, "frag": fi, "scope": "file"}
+            if not c.startswith(("int fp", "int fq", "int fr", "typeof(%s) fs", "int sw", "int sx")):
+                yield {"ctx": ci, "frag": fi, "scope": "block"}
+
+
+def place_source(case):
+    c = (PLACE_CTX + PLACE_BLOCK_ONLY)[case["ctx"]]
+    t = _place(c, PLACE_FRAGS[case["frag"]], case["ctx"])
+    if case["scope"] == "file":
+        return PLACE_PRELUDE + t + "\nint after(void) { return n; }\n"
+    return PLACE_PRELUDE + "void host(int n, ...) {\n__builtin_va_list ap; __builtin_va_start(ap, n);\n" + t + "\n__builtin_va_end(ap); }\nint after(void) { return n; }\n"
+
+
+def place_check(case, ctx):
+    res = Result()
+    res.n = 1
+    src = place_source(case)
+    what = "place:%s:%d:%d" % (case["scope"], case["ctx"], case["frag"])
+    for t in TARGETS if ctx.tier == "thorough" else TARGETS[:1]:
+        judge(ctx, src.encode(), t, [], res, what)
+        if res.fail:
+            break
+    _nontrivial(ctx, src, res)
+    res.labels.append("place:" + case["scope"])
+    res.sample = {"source": "placement", "text": src[len(PLACE_PRELUDE):][:160]}
+    return res
+
+
 def stress_enum(ctx):
     top_nest = 1 << 10
     top_len = 1 << 12 if ctx.tier == "quick" else 1 << 20
@@ -667,6 +735,7 @@ def sources(ctx):
     from . import c19_fuzz
     return [
         Source("stress", stress_check, enum=stress_enum),
+        Source("placement", place_check, enum=place_enum),
         Source("iofault", io_check, enum=io_enum),
         Source("trunc", trunc_check, enum=trunc_enum),
         Source("mutate", mutate_check, strategy=mutate_strategy, examples={"quick": 40000, "thorough": 600000}),
